@@ -565,7 +565,8 @@ class C03(base.StoreSpec):
             key = (ev[1], tuple(ev[2]), ev[3], ev[4], ev[5])
             m = base.check_query(rp, ev, o, self.norm)
             if m:
-                if rp.kind == "fset" and key in last and same_modulo_f10(rp.schemas[ev[1]], last[key], o):
+                if rp.kind == "fset" and key in last and all(
+                        same_modulo_f10(rp.schemas[ev[1]], u, v) for u, v in zip(base.split_paths(last[key]), base.split_paths(o))):
                     known = ("known", "F10", "after merging parts of which only some have string/binary field w, rows without it "
                              "read as empty instead of null: before %s after %s" % (last[key][:80], o[:80]))
                     continue
@@ -573,10 +574,12 @@ class C03(base.StoreSpec):
             if key in last and last[key] != o:
                 prev = last[key]
                 ties = base.tie_keys(rp, ev, self.norm)
-                pa = [base.parse_row(t) for t in prev.split()[1:]]
-                pb = [base.parse_row(t) for t in o.split()[1:]]
-                same = len(pa) == len(pb) and all(
-                    (x.sid, x.ts, x.ver) == (y.sid, y.ts, y.ver) and (x.vals == y.vals or x.key() in ties) for x, y in zip(pa, pb))
+                same = True
+                for u, v in zip(base.split_paths(prev), base.split_paths(o)):      # row path, columnar path
+                    pa = [base.parse_row(t) for t in u.split()[1:]]
+                    pb = [base.parse_row(t) for t in v.split()[1:]]
+                    same = same and len(pa) == len(pb) and all(
+                        (x.sid, x.ts, x.ver) == (y.sid, y.ts, y.ver) and (x.vals == y.vals or x.key() in ties) for x, y in zip(pa, pb))
                 if not same:
                     return ("violation", "answer changed across a flush/merge step: before %s after %s" % (prev[:200], o[:200]))
             last[key] = o
